@@ -63,6 +63,10 @@ fn oracle(c: &Case, acc: &mut Acc) -> CaseResult {
     let mut last_from_peer: Option<Vec<u8>> = None;
     let mut last_any: Option<Vec<u8>> = None;
     let mut out_of_phase = 0usize;
+    // set once an IN-phase call with invalid arguments has failed: what happens to later valid
+    // calls is then C07's business (failed calls are no-ops), not this property's
+    let mut inphase_failure = false;
+    let blame = |tainted: bool, msg: String| if tainted { Fail::setup(msg) } else { Fail::new(msg) };
     let my_turn_model = |pos: usize| pos < nm && ((pos % 2 == 0) == c.initiator);
     let check_ind = |e: &snow::HandshakeState, pos: usize, step: usize| -> CaseResult {
         ensure!(e.is_handshake_finished() == (pos == nm), "{who}: after step {step}: is_handshake_finished()={} but {pos} of {nm} messages processed", e.is_handshake_finished());
@@ -86,15 +90,17 @@ fn oracle(c: &Case, acc: &mut Acc) -> CaseResult {
                 let res = e.write_message(&payload, &mut buf);
                 if mine {
                     if *op == W_OK {
-                        let n = res.map_err(|x| Fail::new(format!("{who}: step {step}: in-turn write failed: {x:?}")))?;
+                        let n = res.map_err(|x| blame(inphase_failure, format!("{who}: step {step}: in-turn write failed: {x:?}")))?;
                         let msg = buf[..n].to_vec();
                         let mut pb = vec![0u8; 65535];
-                        p.read_message(&msg, &mut pb).map_err(|x| Fail::new(format!("{who}: step {step}: the peer rejects the written message: {x:?}")))?;
+                        // whether the peer accepts the bytes is C01/C02/C07's business
+                        p.read_message(&msg, &mut pb).map_err(|x| Fail::setup(format!("{who}: step {step}: the peer rejects the written message: {x:?}")))?;
                         last_any = Some(msg);
                         pos += 1;
                         failed = false;
                     } else {
                         ensure!(res == Err(Error::Input), "{who}: step {step}: in-turn write into an empty buffer returned {res:?}, expected Err(Input)");
+                        inphase_failure = true;
                     }
                 } else {
                     out_of_phase += 1;
@@ -108,7 +114,7 @@ fn oracle(c: &Case, acc: &mut Acc) -> CaseResult {
                 let msg: Vec<u8> = match *op {
                     R_GENUINE if expecting_read => {
                         let mut pb = vec![0u8; 65535];
-                        let n = p.write_message(&spec.payload(pos, 4), &mut pb).map_err(|x| Fail::new(format!("{who}: shadow peer write: {x:?}")))?;
+                        let n = p.write_message(&spec.payload(pos, 4), &mut pb).map_err(|x| Fail::setup(format!("{who}: shadow peer write: {x:?}")))?;
                         pb[..n].to_vec()
                     },
                     R_GENUINE | R_STALE => last_any.clone().or(last_from_peer.clone()).unwrap_or_else(|| expand(7, 7, 10)),
@@ -118,7 +124,7 @@ fn oracle(c: &Case, acc: &mut Acc) -> CaseResult {
                 let res = e.read_message(&msg, &mut buf);
                 if expecting_read {
                     if *op == R_GENUINE {
-                        let n = res.map_err(|x| Fail::new(format!("{who}: step {step}: read of the genuine next message failed: {x:?}")))?;
+                        let n = res.map_err(|x| blame(inphase_failure, format!("{who}: step {step}: read of the genuine next message failed: {x:?}")))?;
                         ensure!(buf[..n] == spec.payload(pos, 4)[..], "{who}: step {step}: payload differs");
                         last_from_peer = Some(msg.clone());
                         last_any = Some(msg);
@@ -126,6 +132,7 @@ fn oracle(c: &Case, acc: &mut Acc) -> CaseResult {
                         failed = false;
                     } else {
                         ensure!(res.is_err(), "{who}: step {step}: stale/garbage message accepted: {res:?}");
+                        inphase_failure = true;
                     }
                 } else {
                     out_of_phase += 1;
@@ -149,7 +156,7 @@ fn oracle(c: &Case, acc: &mut Acc) -> CaseResult {
             let res = if stateless { e.into_stateless_transport_mode().map(|_| ()) } else { e.into_transport_mode().map(|_| ()) };
             ensure!(res == Err(Error::State(SP::HandshakeNotFinished)), "{who}: conversion at position {pos}/{nm} returned {res:?}, expected Err(State(HandshakeNotFinished))");
         } else {
-            let mut pt = p.into_transport_mode().map_err(|x| Fail::new(format!("{who}: shadow peer conversion: {x:?}")))?;
+            let mut pt = p.into_transport_mode().map_err(|x| Fail::setup(format!("{who}: shadow peer conversion: {x:?}")))?;
             enum T {
                 F(snow::TransportState),
                 L(snow::StatelessTransportState),
@@ -178,7 +185,7 @@ fn oracle(c: &Case, acc: &mut Acc) -> CaseResult {
                             let n = res.map_err(|x| Fail::new(format!("{who}: transport step {k}: write failed: {x:?}")))?;
                             nw += 1;
                             let mut pb = vec![0u8; 64];
-                            let l = pt.read_message(&buf[..n], &mut pb).map_err(|x| Fail::new(format!("{who}: transport step {k}: the peer rejects the written message: {x:?}")))?;
+                            let l = pt.read_message(&buf[..n], &mut pb).map_err(|x| Fail::setup(format!("{who}: transport step {k}: the peer rejects the written message: {x:?}")))?;
                             ensure!(&pb[..l] == b"abc", "{who}: transport payload");
                         } else {
                             out_of_phase += 1;
@@ -188,7 +195,7 @@ fn oracle(c: &Case, acc: &mut Acc) -> CaseResult {
                     T_READ | T_GARBAGE => {
                         let msg = if *op == T_READ && can_read {
                             let mut pb = vec![0u8; 64];
-                            let n = pt.write_message(b"xyz", &mut pb).map_err(|x| Fail::new(format!("{who}: shadow peer transport write: {x:?}")))?;
+                            let n = pt.write_message(b"xyz", &mut pb).map_err(|x| Fail::setup(format!("{who}: shadow peer transport write: {x:?}")))?;
                             pb[..n].to_vec()
                         } else {
                             expand(11, k as u64, 40)
